@@ -543,6 +543,16 @@ impl<Upstream> ValidationContext<Upstream> {
         let signer_name =
             match get_soa_state(&sname, qclass, &mut authorities) {
                 (None, ede) => {
+                    // Without a SOA record nothing in the reply tells us
+                    // whether the name is in a secure zone. The reply can
+                    // only be bogus if it is: below an insecure delegation
+                    // there is nothing to prove.
+                    let node = self.get_node(&sname).await?;
+                    let state = node.validation_state();
+                    if state != ValidationState::Secure {
+                        return Ok((state, node.extended_error()));
+                    }
+
                     let ede = match ede {
                         Some(ede) => Some(ede),
                         None => make_ede(
